@@ -596,7 +596,9 @@ def provs_wire(case):
 def schema_part(case, m):
     """(sch conform open_errors open_unknowns <schema of check> <schema of check+show> <opened value> <providers>
     <schema of the open run>)"""
-    if len(m) != 3 or any(("crash" in x or "panic" in x or x.get("loaderr")) for x in m):
+    if len(m) == 3 and any(("crash" in x or "panic" in x) for x in m):
+        return None                       # a crashed / panicked run is never "outside the hypothesis": the caller fails the case
+    if len(m) != 3 or any(x.get("loaderr") for x in m):
         return "(sch f t t none none none ())"
     op = m[2]
     s1, s2 = schema_wire(m[0].get("schema")), schema_wire(m[1].get("schema"))
@@ -631,6 +633,8 @@ def measure(prop, cases, r):
     for i, (c, o) in enumerate(zip(cases, r["obs"])):
         m = o.get("multi") or []
         if "crash" in o or "panic" in o or len(m) != 3:
+            continue
+        if schema_part(c, m) is None:
             continue
         qlines.append("(c06q (%s) %s)" % (" ".join(G.w_envdef(d) for d in all_defs(c)), schema_part(c, m)))
         qidx.append(i)
